@@ -34,11 +34,32 @@ def cnet_cases(tier):
         if w > 64:
             prms.append(tuple(range(60, min(w, 70))))
             prms.append(tuple(range(w)) + tuple(range(w)))          # 2w bits
+        # index tuples that are no arithmetic progression (hand-built / imported / pass-generated nets): permuted
+        # neighbours, repeats between equal endpoints, an interior bit from another limb, random picks
+        if w >= 4:
+            prms += [(0, 2, 1, 3), (w - 4, w - 2, w - 3, w - 1), (0, w - 1, 1)]
+        if w >= 5:
+            prms += [(1, 3, 3, 4), (w - 5, w - 3, w - 3, w - 2, w - 1)]
+        if w > 66:
+            prms += [(60, w - 1, 62), (1, 65, 2, 3), (64, 0, 65, 66)]
+        import random
+        rnd = random.Random(w)
+        for _ in range(4):
+            prms.append(tuple(rnd.randrange(w) for _ in range(rnd.randint(2, 9))))
         for prm in prms:
             if prm:
                 cs.append(('s', prm, [w], len(prm)))
                 if len(prm) > 1:
                     cs.append(('s', prm, [w], len(prm) - 1))
+    # multiplication by a Const operand (either side) whose 64-bit limbs include zero limbs below / above non-zero ones
+    for wc, cv in ((128, 3), (130, (1 << 129) | 1), (128, 1 << 64), (192, (5 << 128) | 7), (128, (1 << 128) - 1),
+                   (64, 0), (128, 0), (65, 1 << 64)):
+        for wx in (64, 128):
+            for ci in (0, 1):
+                argws = [wx, wx]
+                argws[ci] = wc
+                for dw in (wx + wc, 64):
+                    cs.append(('*', ('const', ci, cv), argws, dw))
     # concats: 2-4 arguments from W, full and truncated
     import itertools
     cw = [1, 3, 31, 33, 63, 64, 65] if tier == 'quick' else [1, 2, 3, 31, 32, 33, 63, 64, 65, 127, 129]
